@@ -7,6 +7,7 @@ import (
 	"context"
 	"math/rand"
 	"net/netip"
+	"sort"
 	"testing"
 	"testing/synctest"
 	"time"
@@ -245,4 +246,129 @@ func c05LoopStall(t *testing.T, out *vfh.Out, min, max time.Duration, waits, sta
 		close(ipC)
 		out.Line(c.String(), impl.String())
 	})
+}
+
+// c05LoopLive: the multicast loop inside a whole running advertiser (Run → dial → multicast loop,
+// scheduler, listener) while the router's circumstances change at run time: IPv6 forwarding on the
+// interface is switched off and on, and hosts solicit by unicast (each answer is one more RA built
+// from the then-current state).  None of this is a (re)initialisation of the interface: the gaps
+// between consecutive unsolicited multicast RAs are still exactly the waits of ONE run — the first
+// three capped at 16 s, every later one within [Min, Max].
+//
+//	mfw ntog { at } nsol { at host } min max n draws… | n gaps…
+func c05LoopLive(t *testing.T, out *vfh.Out, min, max time.Duration, waits int, togs []time.Duration, sols []advEvent) {
+	out.Pending(fmt.Sprintf("c05LoopLive min=%v max=%v waits=%d togs=%v sols=%+v", min, max, waits, togs, sols))
+	synctest.Test(t, func(t *testing.T) {
+		v := newVfAdv(vfAdvConfig(min, max, false, 1800*time.Second), false, nil)
+		seed := time.Now().UnixNano()
+		prng := rand.New(rand.NewSource(seed))
+		c := new(vfh.Toks).S("mfw").N(len(togs))
+		for _, d := range togs {
+			c.I(int64(d))
+		}
+		c.N(len(sols))
+		for _, e := range sols {
+			c.I(int64(e.t)).N(e.host)
+		}
+		c.I(int64(min)).I(int64(max)).N(waits)
+		for i := 0; i < waits; i++ {
+			var d int64
+			if min != max {
+				d = prng.Int63n(max.Nanoseconds() - min.Nanoseconds())
+			}
+			c.I(d)
+		}
+		ctx, cancel := context.WithCancel(context.Background())
+		v.conn.t0 = time.Now()
+		start := time.Now()
+		done := make(chan error, 1)
+		go func() { done <- v.a.Run(ctx) }()
+		for _, d := range togs {
+			go func() {
+				time.Sleep(d)
+				v.state.mu.Lock()
+				v.state.forwarding = !v.state.forwarding
+				v.state.mu.Unlock()
+			}()
+		}
+		go func() {
+			for _, e := range sols {
+				if d := e.t - time.Since(start); d > 0 {
+					time.Sleep(d)
+				}
+				if !v.conn.deliver(vfRead{m: advMessage(e), hop: 255, host: vfHosts[e.host].WithZone("vf0")}) {
+					return
+				}
+			}
+		}()
+		time.Sleep(time.Duration(waits)*max + time.Second)
+		cancel()
+		select {
+		case <-done:
+		case <-time.After(10 * time.Minute):
+			t.Log("advertiser did not return after cancellation")
+		}
+		time.Sleep(10 * time.Second)
+		synctest.Wait()
+
+		var at []time.Duration
+		for _, w := range sortedWrites(v.conn.snapshot()) {
+			if w.dst == vfAllNodes {
+				at = append(at, w.begin)
+			}
+		}
+		// the first `waits` gaps (the run lasted waits × max, so there are at least that many
+		// unless the loop stopped requesting)
+		impl := new(vfh.Toks)
+		var gaps []int64
+		// at[0] is the initial RA of the (re)initialised interface, sent by Run itself; the loop's
+		// first request is made at the same instant and is transmitted MIN_DELAY_BETWEEN_RAS later
+		// (at[1], the rate limit of C06); from then on — every wait being longer than twice that
+		// delay in these scenarios — a request is transmitted at the instant it is made
+		prev := time.Duration(0)
+		for i := 2; i < len(at) && len(gaps) < waits; i++ {
+			gaps = append(gaps, int64(at[i]-prev))
+			prev = at[i]
+		}
+		impl.N(len(gaps))
+		for _, g := range gaps {
+			impl.I(g)
+		}
+		out.Line(c.String(), impl.String())
+		out.Flush()
+	})
+}
+
+func verifC05Live(t *testing.T, r *vfh.Rand, out *vfh.Out) {
+	for k := vfh.N(60, 800); k > 0; k-- {
+		max := time.Duration(r.Range(10, 90)) * time.Second
+		if r.Chance(1, 5) {
+			max = time.Duration(r.Range(90, 1800)) * time.Second
+		}
+		min := time.Duration(r.Range(7, int64(upperMin(max)/time.Second))) * time.Second
+		waits := 5 + r.Intn(12)
+		span := int64(time.Duration(waits) * min)
+		var togs []time.Duration
+		for j := r.Intn(5); j > 0; j-- {
+			togs = append(togs, time.Duration(r.Range(int64(time.Second), span))|1)
+		}
+		sort.Slice(togs, func(i, j int) bool { return togs[i] < togs[j] })
+		var sols []advEvent
+		for j := r.Intn(6); j > 0; j-- {
+			sols = append(sols, advEvent{t: time.Duration(r.Range(int64(time.Second), span)) | 1, hop: 255, host: 1 + r.Intn(len(vfHosts)-1)})
+		}
+		// a solicitation shortly after a toggle: the answer is the first RA built from the new state
+		for _, d := range togs {
+			if r.Bool() {
+				sols = append(sols, advEvent{t: (d + time.Duration(r.Range(2, int64(2*time.Second)))) | 1, hop: 255, host: 1 + r.Intn(len(vfHosts)-1)})
+			}
+		}
+		sort.Slice(sols, func(i, j int) bool { return sols[i].t < sols[j].t })
+		for i := 1; i < len(sols); i++ {
+			if sols[i].t <= sols[i-1].t {
+				sols[i].t = sols[i-1].t + 2
+			}
+		}
+		c05LoopLive(t, out, min, max, waits, togs, sols)
+	}
 }
